@@ -84,29 +84,52 @@ def main():
             jobs.append({'op': 'sampler_replay', 'behaviours': [[[[keyname(k) for k in lst], cap] for lst, cap, _ in b] for b in behs[i:i + chunk]]})
         got = PC.pipe_eval(jobs, modules=['pipe_ops'])
         nontriv = 0
+        drift_count = [0]
         for ji, (job, r) in enumerate(zip(jobs, got)):
             if r is None or 'ok' not in r:
                 V.violation(f'replay-failed:{label}:{ji}', f'prior_combinations_sample failed: {PC.failure_text(r)}', job)
                 continue
             for b, steps in zip(behs[ji * chunk:(ji + 1) * chunk], r['ok']):
                 cnt = {}
+                spec_drift_here = False
                 if any(cap < len(lst) for lst, cap, _ in b):
                     nontriv += 1
                 for (lst, cap, sel), st in zip(b, steps):
-                    for k in lst:
+                    # property-level acceptance of the REAL selection (ties may be broken in any way); the model's own
+                    # selection `sel` (stable sort) is compared for drift only
+                    keys = [tuple(keyname(k)) for k in lst]
+                    for k in keys:
                         cnt.setdefault(k, 0)
-                    for k in sel:
-                        cnt[k] += 1
-                    exp_ret = [keyname(k) for k in sel]
-                    exp_cnt = sorted([[keyname(k), v] for k, v in cnt.items()], key=repr)
+                    ret = [tuple(k) for k in st['ret']]
                     hkey = f'{label}:calls={[(l, c) for l, c, _ in b]}'
-                    if st['ret'] != exp_ret:
-                        V.violation('selection:' + hkey, f'returned {st["ret"]}, specified {exp_ret} (least-evaluated first, stable, exactly min(cap, len))', {'behaviour': b})
+                    dupfree = len(set(keys)) == len(keys)
+                    problem = None
+                    if any(k not in keys for k in ret):
+                        problem = f'returned {ret} contains a combination that is not a candidate'
+                    elif len(ret) != min(cap, len(keys)):
+                        problem = f'returned {len(ret)} combinations, exactly min(cap={cap}, candidates={len(keys)}) are required'
+                    elif dupfree and len(set(ret)) != len(ret):
+                        problem = f'returned combinations are not distinct: {ret}'
+                    elif dupfree and ret and any(cnt[a] > cnt[u] for a in ret for u in keys if u not in ret):
+                        problem = f'returned {ret} although less-evaluated candidates exist (counts before the call {cnt})'
+                    if problem:
+                        V.violation('selection:' + hkey, problem, {'behaviour': b})
                         break
-                    if st['counts'] != exp_cnt:
-                        V.violation('counter:' + hkey, f'counter {st["counts"]}, specified {exp_cnt}', {'behaviour': b})
+                    for k in ret:
+                        cnt[k] += 1
+                    real_cnt = {tuple(k): v for k, v in st['counts']}
+                    if real_cnt != cnt:
+                        V.violation('counter:' + hkey, f'reported counts {real_cnt} are not the number of times each combination was returned {cnt}', {'behaviour': b})
                         break
+                    if dupfree and len({tuple(x) for x in map(tuple, [keys])}) == 1 and len(b) and all(l == b[0][0] for l, _, _ in b):
+                        if max(cnt.values()) - min(cnt.values()) > 1:
+                            V.violation('fairness:' + hkey, f'evaluation counts of a stable duplicate-free list differ by more than one: {cnt}', {'behaviour': b})
+                            break
+                    if st['ret'] != [keyname(k) for k in sel]:
+                        spec_drift_here = True
+                drift_count[0] += 1 if spec_drift_here else 0
         V.count(evaluations=len(behs), nontrivial=nontriv, traces=len(behs))
+        V.notes[f'{label}_tie_breaking_drift'] = drift_count[0]
         V.add_sample({'run': label, 'behaviour': behs[len(behs) // 3]})
 
     # ---- binding B: recorded sampler calls of real multi-batch runs
@@ -181,7 +204,7 @@ def main():
                 V.add_sample({'recorded_call': {k: ncalls_only[1][k] for k in ('client', 'list', 'cap', 'ret')}})
                 # negative control: corrupt one returned list
                 bad = [dict(e) for e in ncalls_only]
-                bad[1] = dict(bad[1], ret=list(reversed(bad[1]['ret'])))
+                bad[1] = dict(bad[1], ret=bad[1]['ret'][:-1])
                 with open(tf, 'w') as f:
                     f.write(json.dumps({'e': 'begin'}) + '\n')
                     for e in bad:
@@ -189,7 +212,7 @@ def main():
                 res2 = E.run_tlc('SamplerTrace', cfg, workers=1, env={'TRACE_FILE': tf}, timeout=600)
                 if res2.ok:
                     raise E.MachineryError('negative control: corrupted sampler trace accepted')
-                V.notes['negative_control'] = 'SamplerTrace rejects a trace whose 2nd returned list was reversed'
+                V.notes['negative_control'] = 'SamplerTrace rejects a trace whose 2nd returned list lost one candidate'
     finally:
         E.cleanup(wd)
         try:
